@@ -78,7 +78,7 @@ SPEC = Spec(
                  go_translator("pdatamsg", "OtelVerif/Gen/PdataMsg.lean"),
                  go_translator("pdataslices", "OtelVerif/Gen/PdataSlices.lean")],
     harnesses=[
-        H("witness", "TestVerifC07Witness", None, {"quick": 9, "thorough": 9}),
+        H("witness", "TestVerifC07Witness", None, {"quick": 10, "thorough": 10}),
         H("ptrslice", "TestVerifC07PtrSlice", "drv_c07", {"quick": 12000, "thorough": 100000}),
         Harness(name="ptrslice-ptrace", module="pdata", pkg="pdata/ptrace", files={"zz_verif_c07_ptrslice_test.go": "c07/ptrslice_ptrace_test.go"},
                 test="TestVerifC07PtrSliceTrace", driver="drv_c07", n={"quick": 3000, "thorough": 40000}),
@@ -112,7 +112,7 @@ SPEC = Spec(
         H("tree", "TestVerifC07Tree", None, {"quick": 5000, "thorough": 100000}),
         H("metric", "TestVerifC07Metric", None, {"quick": 8000, "thorough": 150000}),
     ],
-    rule="witness: 9 scripted corpus cases (the reproduced defects and the seeded-change targets), each with a direct oracle. "
+    rule="witness: 10 scripted corpus cases (the reproduced defects and the seeded-change targets), each with a direct oracle. "
          "ptrslice (exact differential against the Lean heap model + Lean oracle on the implementation's observations): corpus of 4 "
          "scripted programs, then random programs of 1-40 ops (append, set, remove-if by index pattern, ensure-capacity, sort, copy-to, "
          "move-and-append-to, mark-read-only) over 2-4 plog.LogRecordSlice handles, content and cap of every handle observed after every "
